@@ -180,6 +180,28 @@ impl Monitor for C07 {
         if rebuild_root(&coins, 1) != hd.coins_hash.0 {
             viol!("coins-root-not-function-of-contents", "coin root of block {} differs from the root of a tree rebuilt from its {} entries", hd.height, coins.len());
         }
+        {
+            // from the decoded coins alone: coin entries, plus - once TIP-906 is active - the counts they imply
+            let mut entries: Vec<([u8; 32], Vec<u8>)> =
+                ob.post.coins.iter().map(|(id, cdh)| (tmelcrypt::hash_single(&id.stdcode()).0, cdh.stdcode())).collect();
+            if tips_at(hd.network, hd.height.0).t906 {
+                for (cov, n) in crate::refstf::recount(&ob.post.coins, true) {
+                    entries.push((tmelcrypt::hash_keyed(b"coin_count", cov.0).0, n.stdcode()));
+                }
+            }
+            if ob.post.unknown_coin_entries.is_empty() && rebuild_root(&entries, 5) != hd.coins_hash.0 {
+                viol!(
+                    "coins-root-not-function-of-coins",
+                    "coin root of block {} ({:?}, TIP-906 {}) is not the root over its {} coins{}: the tree holds {} count entr(ies)",
+                    hd.height,
+                    hd.network,
+                    tips_at(hd.network, hd.height.0).t906,
+                    ob.post.coins.len(),
+                    if tips_at(hd.network, hd.height.0).t906 { " and the counts they imply" } else { "" },
+                    ob.post.counts.len()
+                );
+            }
+        }
         if rebuild_root(&pools, 2) != hd.pools_hash.0 {
             viol!("pools-root-not-function-of-contents", "pool root of block {} differs from the root rebuilt from its contents", hd.height);
         }
@@ -299,6 +321,9 @@ impl Monitor for C07 {
             st.nontrivial(h64(&hh));
         }
         st.class(if t908 { "sealed-state-tip908" } else { "sealed-state-pre908" });
+        if hd.network == melstructs::NetID::Mainnet && hd.height.0 >= 180_000 && hd.height.0 < 830_000 && !ob.trace.withdrawals.is_empty() {
+            st.class("legacy-window-withdrawal-settled");
+        }
         self.prev = Some(hd);
         // teleports fabricate ancestors; only honest ones are tracked
         if w.headers.get(&hd.height.0) == Some(&hd) {
@@ -361,11 +386,16 @@ pub fn run(ctx: &Ctx) -> (Outcome, String, Option<bool>) {
         },
     );
     out.absorb(o);
-    let rule = "Generated histories on Custom08 (dense transaction commitment), Custom02, Testnet and Mainnet (sparse commitment), plus perturbation pairs: the same plan run under two configurations differing in one scalar (genesis fee pool +1, multiplier 0 vs 1 with fee-free traffic, genesis coin value class, one extra stake, one extra transaction). Oracle per sealed state: (a) height = parent+1, previous = hash(parent header), constant network id, every honest ancestor header present in the history tree at its height and none at the state's own height; (b) coin, pool and history roots in the header equal the roots of trees rebuilt in a fresh store from the iterated contents in another order; stakes_hash re-derived from raw_stakes(); transactions_hash re-derived by the harness's own implementations of the sparse (hash_nosigs -> tx) and dense (sorted hash_nosigs||hash(tx)) commitments, with transaction_sorted_posn agreeing with the dense order; (c) across all sealed states a shard sees, header hash <-> digest of the full contents is a bijection (different contents never share a header; equal contents never have two headers); (d) every coin, pool and ancestor header has a membership proof, and 8 absent coins and 8 future heights a non-membership proof, that verify against the root in the header; every transaction has a dense (TIP-908) or sparse proof. Non-trivial = sealed state with >=3 coins, >=1 transaction, height >=2; distinct by header hash.".to_string();
+    let o = legacy_window_phase(ctx, if ctx.thorough() { 4000 } else { 480 });
+    out.absorb(o);
+    let rule = "Generated histories on Custom08 (dense transaction commitment), Custom02, Testnet and Mainnet (sparse commitment), plus perturbation pairs: the same plan run under two configurations differing in one scalar (genesis fee pool +1, multiplier 0 vs 1 with fee-free traffic, genesis coin value class, one extra stake, one extra transaction). Oracle per sealed state: (a) height = parent+1, previous = hash(parent header), constant network id, every honest ancestor header present in the history tree at its height and none at the state's own height; (b) coin, pool and history roots in the header equal the roots of trees rebuilt in a fresh store from the iterated contents in another order; stakes_hash re-derived from raw_stakes(); transactions_hash re-derived by the harness's own implementations of the sparse (hash_nosigs -> tx) and dense (sorted hash_nosigs||hash(tx)) commitments, with transaction_sorted_posn agreeing with the dense order; (c) across all sealed states a shard sees, header hash <-> digest of the full contents is a bijection (different contents never share a header; equal contents never have two headers); (b') the coin root also equals the root over the decoded coins alone, plus - only once TIP-906 is active - the counts they imply; a legacy-window phase runs mainnet histories between heights 180 000 and 830 000 (swaps, legacy deposits, withdrawals) in child processes, because the legacy deposit rule can abort the process inside novasmt in checked builds (a child that dies is counted, not reported); (d) every coin, pool and ancestor header has a membership proof, and 8 absent coins and 8 future heights a non-membership proof, that verify against the root in the header; every transaction has a dense (TIP-908) or sparse proof. Non-trivial = sealed state with >=3 coins, >=1 transaction, height >=2; distinct by header hash.".to_string();
     (out, rule, None)
 }
 
 pub fn replay(case: &serde_json::Value) -> Check {
+    if let Some(lp) = case.get("legacy_plan") {
+        return super::hist::replay_history(lp, &legacy_profile(), C07::default());
+    }
     if case.get("cfg").is_some() {
         return super::hist::replay_history(case, &profile(), C07::default());
     }
@@ -375,4 +405,106 @@ pub fn replay(case: &serde_json::Value) -> Check {
         return crate::plan::run_plan(&plan, &profile(), &mut C07::default(), &mut st, 200);
     }
     Err(crate::evidence::Violation::new("replay-format", "cannot interpret replay case"))
+}
+
+pub fn legacy_profile() -> Profile {
+    let mut p = Profile::general();
+    p.net_w = [0, 0, 0, 100, 0, 0, 0, 0, 0];
+    p.kind_w = [16, 0, 28, 24, 30, 0, 2, 0, 0];
+    p.p_mut = 4;
+    p.p_odd_spelling = 0;
+    p.max_txs = 4;
+    p.max_steps = 32;
+    p.mainnet_like_legacy = false;
+    p.start_in_legacy_window = true;
+    p.mempool = false;
+    p
+}
+
+/// child side: run one plan in the legacy window and print the violation (or null) as JSON
+pub fn legacy_child(plan: &crate::plan::Plan) -> serde_json::Value {
+    let mut st = Stats::default();
+    match crate::plan::run_plan(plan, &legacy_profile(), &mut C07::default(), &mut st, 212) {
+        Ok(()) => serde_json::json!({"violation": null, "withdrawals": st.classes.get("legacy-window-withdrawal-settled").copied().unwrap_or(0)}),
+        Err(v) => serde_json::json!({"violation": {"signature": v.signature, "detail": v.detail}}),
+    }
+}
+
+/// Mainnet between TIP-902 and TIP-906 can only be populated with liquidity tokens through the legacy deposit
+/// rule, whose removal of an absent key can abort the process inside novasmt in checked builds. Those histories
+/// therefore run in child processes: a child that dies is counted, not reported.
+pub fn legacy_window_phase(ctx: &Ctx, n_plans: usize) -> Outcome {
+    use proptest::strategy::{Strategy, ValueTree};
+    use proptest::test_runner::{Config, RngAlgorithm, TestRng, TestRunner};
+    let mut out = Outcome::empty();
+    let seed = blake3::hash(format!("c07-legacy-window-{}", ctx.seed).as_bytes());
+    let mut runner = TestRunner::new_with_rng(Config::default(), TestRng::from_seed(RngAlgorithm::ChaCha, seed.as_bytes()));
+    let prof = legacy_profile();
+    let exe = match std::env::current_exe() {
+        Ok(e) => e,
+        Err(_) => return out,
+    };
+    let dir = crate::evidence::verif_root().join("replays").join("C07").join("legacy-window-tmp");
+    let _ = std::fs::create_dir_all(&dir);
+    let plans: Vec<crate::plan::Plan> = (0..n_plans).filter_map(|_| crate::plan::arb_plan(&prof).new_tree(&mut runner).ok().map(|t| t.current())).collect();
+    let results: Vec<(usize, Option<serde_json::Value>)> = {
+        use std::sync::Mutex;
+        let next = Mutex::new(0usize);
+        let res = Mutex::new(vec![]);
+        std::thread::scope(|sc| {
+            for _ in 0..ctx.shards.min(16) {
+                sc.spawn(|| loop {
+                    let i = {
+                        let mut g = next.lock().unwrap();
+                        let i = *g;
+                        *g += 1;
+                        i
+                    };
+                    if i >= plans.len() {
+                        break;
+                    }
+                    let f = dir.join(format!("plan-{}.json", i));
+                    if std::fs::write(&f, serde_json::to_vec(&plans[i]).unwrap()).is_err() {
+                        continue;
+                    }
+                    let o = std::process::Command::new(&exe).arg("legacy-plan").arg("C07").arg(&f).output();
+                    let v = match o {
+                        Ok(o) if o.status.success() => serde_json::from_slice::<serde_json::Value>(&o.stdout).ok(),
+                        _ => None,
+                    };
+                    let _ = std::fs::remove_file(&f);
+                    res.lock().unwrap().push((i, v));
+                });
+            }
+        });
+        res.into_inner().unwrap()
+    };
+    for (i, v) in results {
+        out.stats.evals += 1;
+        match v {
+            None => out.stats.exclude("legacy-window-child-died-or-failed"),
+            Some(j) => {
+                if let Some(viol) = j.get("violation").filter(|x| !x.is_null()) {
+                    let sig = viol["signature"].as_str().unwrap_or("legacy-window").to_string();
+                    let detail = viol["detail"].as_str().unwrap_or("").to_string();
+                    let vv = crate::evidence::Violation::new(sig, detail);
+                    if ctx.known.matches("C07", &vv.signature).is_some() {
+                        *out.stats.known_hits.entry(vv.signature.clone()).or_insert(0) += 1;
+                    } else if out.violations.is_empty() {
+                        let body = serde_json::json!({"property": "C07", "seed": ctx.seed, "tier": ctx.tier, "phase": "legacy-window", "signature": vv.signature, "detail": vv.detail, "case": {"legacy_plan": plans[i]}});
+                        let p = crate::evidence::write_replay("C07", &vv.signature, &body);
+                        out.violations.push((vv, p));
+                    }
+                } else {
+                    out.stats.class("legacy-window-history-clean");
+                    if j["withdrawals"].as_u64().unwrap_or(0) > 0 {
+                        out.stats.class("legacy-window-history-with-settled-withdrawal");
+                        out.stats.nontrivial(h64(format!("legacy-{}-{}", ctx.seed, i).as_bytes()));
+                    }
+                }
+            }
+        }
+    }
+    let _ = std::fs::remove_dir_all(&dir);
+    out
 }
